@@ -971,6 +971,13 @@ func (d *duration) Apply(key string, value interface{}, ctx *rdf.ParsingContext)
 							),
 						),
 					),
+					jen.Commentf("A 'T' must be followed by a time component, and a duration needs at least one component: zero is written as zero seconds."),
+					jen.Id("s").Op("=").Qual("strings", "TrimSuffix").Call(jen.Id("s"), jen.Lit("T")),
+					jen.If(
+						jen.Id("s").Op("==").Lit("P").Op("||").Id("s").Op("==").Lit("-P"),
+					).Block(
+						jen.Id("s").Op("=").Lit("PT0S"),
+					),
 					jen.Return(
 						jen.Id("s"),
 						jen.Nil(),
